@@ -201,6 +201,48 @@ def run(F, rep, tier):
                 rep.viol('R13.5', 'ZipLongest|row-short-circuit|%s' % bad[0].target.rsplit('::', 1)[-1], 'ziplongest builds a row with %s: the row ends at the first exhausted argument, so later, longer arguments are dropped from it (ziplongest([1], [10, 20, 30]) loses [20] and [30])' % bad[0].target.rsplit('::', 1)[-1], bad[0].loc())
             else:
                 rep.ok('R13.5', 'ZipLongest::run', 'arguments advanced through %s' % sorted({c.target.rsplit('::', 1)[-1] for c in drivers}))
+    # ---------------- R13.6
+    rep.rule('R13.6', 'group with a relation cuts between ADJACENT elements (BUILTINS.md): in grouped_by the first operand of the relation is the '
+             'last element of the current group (its immediate predecessor), not the head of the group or any other element')
+    gb = [p_ for p_ in F.fns if p_ == 'grouped_by' or p_.endswith('::grouped_by')]
+    if not gb:
+        rep.error('R13.6', 'grouped_by missing')
+    else:
+        gbb = F.body(gb[0])
+        calls = [c for c in gbb.calls if c.target.endswith('FnMut::call_mut') or c.target.endswith('Fn::call') or c.target.endswith('FnOnce::call_once')]
+        firsts = set()
+        for c in calls:
+            if len(c.args) < 2 or c.args[1][0] not in ('m', 'c'):
+                continue
+            for (bb, j, kind, st) in gbb.defs().get(c.args[1][1][0], []):
+                if kind == 'a' and st[2][0] == 'agg' and st[2][5]:
+                    firsts |= origins(gbb, st[2][5][0], passthru=('into', 'clone', 'from'))
+        names = sorted({o[1].rsplit('::', 1)[-1] for o in firsts if o[0] == 'call'})
+        if firsts and all(o[0] == 'call' and o[1].rsplit('::', 1)[-1] in ('last', 'back', 'last_mut') for o in firsts):
+            rep.ok('R13.6', 'grouped_by', 'relation(prev = group.last(), current)')
+        elif firsts and any(o[0] == 'call' and o[1].rsplit('::', 1)[-1] in ('first', 'front', 'first_mut') for o in firsts):
+            rep.viol('R13.6', 'grouped_by|relation-operand|%s' % names, 'grouped_by applies the relation to the head of the current group instead of the previous element: `[1, 3, 2] group <` keeps 2 in the run because 1 < 2', calls[0].loc())
+        else:
+            rep.note('R13.6: grouped_by takes the first operand of the relation from %s (idiom not recognised): not decided' % (names or sorted(str(o[:2]) for o in firsts)))
+            rep.ok('R13.6', 'grouped_by (idiom not recognised)', 'first operand from %s' % (names or '?'))
+    # ---------------- R13.7
+    rep.rule('R13.7', 'window(xs, n) of fewer than n elements is empty: windowed has a path from entry to a normal return that builds no window '
+             '(passes no collect / from_iter / to_vec of the sliding buffer); if every path to a return snapshots the buffer, a too-short input yields a short window')
+    wd = [p_ for p_ in F.fns if p_ == 'windowed' or p_.endswith('::windowed')]
+    if not wd:
+        rep.error('R13.7', 'windowed missing')
+    else:
+        wb = F.body(wd[0])
+        snaps = {c.bb for c in wb.calls if c.target.rsplit('::', 1)[-1] in ('collect', 'from_iter', 'to_vec', 'to_owned', 'into_iter') and 'VecDeque' in str(c.callee.get('g')) + c.target} | \
+                {c.bb for c in wb.calls if c.target.rsplit('::', 1)[-1] in ('collect', 'from_iter')}
+        rets = {bb for bb, s_ in wb.aggregates() if s_[1] == [0] and s_[2][4] == 'Ok'}      # normal results only (error exits of `?` do not count)
+        if not snaps:
+            rep.note('R13.7: windowed builds its windows without collect/from_iter (idiom not recognised): not decided')
+            rep.ok('R13.7', 'windowed (idiom not recognised)', 'no snapshot call found')
+        elif not wb.every_path_passes(0, rets, snaps):
+            rep.ok('R13.7', 'windowed', 'an exit without any window exists (short input)')
+        else:
+            rep.viol('R13.7', 'windowed|no-empty-exit', 'every path through windowed builds at least one window: for an input shorter than n the result is a single short window instead of no window', wb.loc(min(snaps)))
     rep.undecided += ['f(xs) == reference(xs) for map/filter/partition/flat_map/flatten/zip/window/group/fold/scan/... (value equations)',
                       'the complete enumeration order of permutations/combinations/subsequences beyond their first element']
     return META
